@@ -26,6 +26,7 @@ import (
 	"github.com/cbeuw/Cloak/internal/common"
 	"github.com/cbeuw/Cloak/internal/ecdh"
 	mux "github.com/cbeuw/Cloak/internal/multiplex"
+	"github.com/cbeuw/Cloak/internal/server/usermanager"
 	"github.com/cbeuw/Cloak/internal/verifhook"
 	vk "github.com/cbeuw/Cloak/internal/verifkit"
 	log "github.com/sirupsen/logrus"
@@ -309,21 +310,49 @@ type awConn struct {
 	cliConn client.Transport
 }
 
-func authWindow(t *testing.T, transport string, rng *mrand.Rand) (res [2]*awConn, note string) {
+type gateManager struct {
+	usermanager.UserManager
+	once    *sync.Once
+	release chan struct{}
+}
+
+func (m gateManager) AuthoriseNewSession(uid []byte, a usermanager.AuthorisationInfo) error {
+	first := false
+	m.once.Do(func() { first = true })
+	if first {
+		<-m.release // a slow user manager (remote API, busy disk): the first caller waits here
+	}
+	return m.UserManager.AuthoriseNewSession(uid, a)
+}
+
+// mode "hook": A parks at disp.userResolved; mode "manager": A parks inside the user manager's
+// AuthoriseNewSession (database users), i.e. after everything dispatchConnection does before it.
+func authWindow(t *testing.T, transport string, mode string, rng *mrand.Rand) (res [2]*awConn, note string) {
 	uidA, uidB := randUID(rng), randUID(rng)
-	g := newSrvRig(t, srvOpts{Bypass: [][]byte{uidA, uidB}})
-	g.serve()
-	defer g.stopClients()
 	release := make(chan struct{})
 	var once sync.Once
-	verifhook.Set("disp.userResolved", func() {
-		first := false
-		once.Do(func() { first = true })
-		if first {
-			<-release
+	var g *srvRig
+	if mode == "manager" {
+		g = newSrvRig(t, srvOpts{DB: true})
+		defer g.cleanup()
+		j := usermanager.JustInt64
+		for _, u := range [][]byte{uidA, uidB} {
+			g.sta.Panel.Manager.WriteUserInfo(usermanager.UserInfo{UID: u, SessionsCap: usermanager.JustInt32(5), UpRate: j(1 << 30), DownRate: j(1 << 30), UpCredit: j(1 << 40), DownCredit: j(1 << 40), ExpiryTime: j(time.Now().Unix() + 1e6)})
 		}
-	})
-	defer verifhook.Set("disp.userResolved", nil)
+		g.sta.Panel.Manager = gateManager{g.sta.Panel.Manager, &once, release}
+	} else {
+		g = newSrvRig(t, srvOpts{Bypass: [][]byte{uidA, uidB}})
+		verifhook.Set("disp.userResolved", func() {
+			first := false
+			once.Do(func() { first = true })
+			if first {
+				<-release
+			}
+		})
+		defer verifhook.Set("disp.userResolved", nil)
+	}
+	g.serve()
+	defer g.stopClients()
 	start := func(uid []byte, sid uint32) *awConn {
 		c := &awConn{uid: uid, sid: sid}
 		cfg := cliCfg{UID: uid, Method: "shadowsocks", Enc: "aes-gcm", Transport: transport, Browser: "firefox", NumConn: 1, SessionID: sid}
